@@ -566,6 +566,29 @@ func (e *Engine) verifyFunction(fc *FuncContract) (*VC, error) {
 		}
 		vc.fact("true", t)
 	}
+	// definitional axioms of the ghost functions this contract mentions
+	{
+		all := strings.Join(texts, " ")
+		for _, inv := range fc.ObjInv {
+			all += " " + inv
+		}
+		for _, ax := range e.contracts.Axioms {
+			used := false
+			for name := range e.contracts.UFuns {
+				if strings.Contains(ax.Body, name+"(") && strings.Contains(all, name+"(") {
+					used = true
+				}
+			}
+			if !used {
+				continue
+			}
+			t, err := vc.specBoolAt(fr, st, st, ax.Body, nil)
+			if err != nil {
+				return vc, fmt.Errorf("axiom %s: %v", ax.Name, err)
+			}
+			vc.fact("true", t)
+		}
+	}
 	for _, w := range fc.Witness {
 		v, err := vc.specEval(fr, st, st, w, nil)
 		if err == nil {
